@@ -10,6 +10,8 @@
 //   kind 7  {var:k} where value["k"] is a POINTER to a string value (SetPointerToValue)
 //   kind 8  <loop value="v">{var:v}</loop> over an array whose single item is a pointer to a string value
 //   kind 9  {raw:k} where value["k"] is a pointer to a string value
+//   kind 10 <loop value="v">{var:v<s>}</loop> over the array [{"name":"x"}]: a LOOP variable that does not resolve and whose
+//           item has no key is echoed like any unresolved tag (the oracle is kind 5's on the text v<s>)
 // output: the emitted units
 #include "common.hpp"
 #include "JSON.hpp"
@@ -76,6 +78,19 @@ static std::string run_case(int kind, const std::vector<vf::u64> &units) {
             std::vector<vf::u64> tv    = lit("{var:");
             for (auto u : units) tv.push_back(u);
             tv.push_back('}');
+            vf::ExactBuf<C> t(tv);
+            Template::Render((const C *)t.p, (SizeT)t.n, v, ss);
+            break;
+        }
+        case 10: {
+            Value<C>  v;
+            Value<C>  rec;
+            const C   name[5] = {C('n'), C('a'), C('m'), C('e'), C(0)};
+            rec[name]         = 1U;
+            v += rec;
+            std::vector<vf::u64> tv = lit("<loop value=\"v\">{var:v");
+            for (auto u : units) tv.push_back(u);
+            for (auto u : lit("}</loop>")) tv.push_back(u);
             vf::ExactBuf<C> t(tv);
             Template::Render((const C *)t.p, (SizeT)t.n, v, ss);
             break;
